@@ -4,6 +4,9 @@ import (
 	"fmt"
 	"go/token"
 	"go/types"
+	"os"
+	"regexp"
+	"sort"
 	"strconv"
 	"strings"
 )
@@ -120,7 +123,7 @@ func (cx *Ctx) epochNameF(name string, st *State, args []*Term, force bool) stri
 	}
 	// Everything that existed at entry is unchanged, and the arguments reach only such objects
 	// (references stored in old objects are old: heap reference invariant): same value as at entry.
-	if allPristine && !force {
+	if allPristine && !force && !cx.spec.quantifiesOverRefs(name) {
 		old := true
 		for _, a := range args {
 			// only arguments that can hold references into the tree matter
@@ -148,6 +151,20 @@ func (cx *Ctx) epochNameF(name string, st *State, args []*Term, force bool) stri
 	cx.epochKeys[k] = e
 	cx.epochs[e] = st
 	return e
+}
+
+// snapshotIfChanged: nil when nothing the recursive spec functions read differs from the unit's entry
+// tree, otherwise a snapshot of st.
+func (cx *Ctx) snapshotIfChanged(st *State) *State {
+	if st == nil || st == cx.tree {
+		return nil
+	}
+	for _, cn := range sortedKeys(cx.treeReads) {
+		if !same(cx.tree.Get(cx, cn), st.Get(cx, cn)) {
+			return st.Clone()
+		}
+	}
+	return nil
 }
 
 // epochOf splits a recursive-definition symbol into its base name and tree epoch.
@@ -228,14 +245,18 @@ type Env struct {
 	st         *State
 	old        *State
 	vars       map[string]*Term
-	epoch      string // (unused)
-	epochSt    *State // tree snapshot recursive spec functions read (nil = the unit's entry tree)
-	loopEntry  *State // state when the enclosing loop was entered (for atLoopEntry(e))
-	forceEpoch bool   // never identify a changed tree snapshot with the entry tree (lemma instances)
+	epoch      string          // (unused)
+	epochSt    *State          // tree snapshot recursive spec functions read (nil = the unit's entry tree)
+	loopEntry  *State          // state when the enclosing loop was entered (for atLoopEntry(e))
+	forceEpoch bool            // never identify a changed tree snapshot with the entry tree (lemma instances)
+	epochSplit bool            // old(e) reads the tree snapshot epochOld instead of epochSt
+	contract   *Contract       // the contract the clause belongs to (scope of identifier renames); may be nil
+	prefer     map[string]bool // names to prefer when an unknown identifier has several candidates (loop-carried variables)
+	epochOld   *State          // tree snapshot of the old() state (nil = the unit's entry tree)
 }
 
 func (e *Env) with(vars map[string]*Term) *Env {
-	n := &Env{cx: e.cx, st: e.st, old: e.old, vars: map[string]*Term{}, epochSt: e.epochSt, loopEntry: e.loopEntry, forceEpoch: e.forceEpoch}
+	n := &Env{cx: e.cx, st: e.st, old: e.old, vars: map[string]*Term{}, epochSt: e.epochSt, loopEntry: e.loopEntry, forceEpoch: e.forceEpoch, epochSplit: e.epochSplit, epochOld: e.epochOld, contract: e.contract, prefer: e.prefer}
 	for k, v := range e.vars {
 		n.vars[k] = v
 	}
@@ -249,8 +270,125 @@ type evalErr string
 
 func efail(f string, a ...interface{}) { panic(evalErr(fmt.Sprintf(f, a...))) }
 
-// Eval evaluates a spec expression; errors are returned, never panics.
-func (env *Env) Eval(x *Expr) (t *Term, err error) {
+// Eval evaluates a spec expression; errors are returned, never panics. An identifier the code no longer
+// declares (a renamed parameter or local) is resolved to the one variable in scope that the contract does
+// not mention and that makes the clause type-check (loop-carried variables preferred); the choice is
+// remembered for the whole contract and reported on stderr. An ambiguous choice is not made.
+func (env *Env) Eval(x *Expr) (*Term, error) {
+	t, err := env.eval0(x)
+	if err == nil || env.contract == nil {
+		return t, err
+	}
+	return env.evalRenaming(x, err)
+}
+
+var unknownIdentRe = regexp.MustCompile(`^unknown identifier ([A-Za-z_][A-Za-z_0-9]*) `)
+
+func (env *Env) evalRenaming(x *Expr, first error) (*Term, error) {
+	c := env.contract
+	m := unknownIdentRe.FindStringSubmatch(first.Error())
+	if m == nil {
+		return nil, first
+	}
+	mentioned := c.mentionedIdents()
+	var cands []string
+	used := map[string]bool{}
+	for _, nw := range c.renames {
+		used[nw] = true
+	}
+	for k := range env.vars {
+		if mentioned[k] || used[k] || strings.HasPrefix(k, "$") || strings.HasPrefix(k, "result") || k == "err" {
+			continue
+		}
+		cands = append(cands, k)
+	}
+	sort.Strings(cands)
+	type sol struct {
+		assign map[string]string
+		t      *Term
+	}
+	var sols []sol
+	saved := c.renames
+	var search func(assign map[string]string, name string, depth int)
+	search = func(assign map[string]string, name string, depth int) {
+		if depth > 4 || len(sols) > 8 {
+			return
+		}
+		for _, cand := range cands {
+			taken := false
+			for _, v := range assign {
+				if v == cand {
+					taken = true
+				}
+			}
+			if taken {
+				continue
+			}
+			next := map[string]string{}
+			for k, v := range saved {
+				next[k] = v
+			}
+			for k, v := range assign {
+				next[k] = v
+			}
+			next[name] = cand
+			c.renames = next
+			t, err := env.eval0(x)
+			c.renames = saved
+			na := map[string]string{}
+			for k, v := range assign {
+				na[k] = v
+			}
+			na[name] = cand
+			if err == nil {
+				sols = append(sols, sol{na, t})
+				continue
+			}
+			if m2 := unknownIdentRe.FindStringSubmatch(err.Error()); m2 != nil && m2[1] != name {
+				if _, seen := na[m2[1]]; !seen {
+					search(na, m2[1], depth+1)
+				}
+			}
+		}
+	}
+	search(map[string]string{}, m[1], 0)
+	if len(sols) > 1 && env.prefer != nil {
+		var pref []sol
+		for _, s := range sols {
+			all := true
+			for _, v := range s.assign {
+				if !env.prefer[v] {
+					all = false
+				}
+			}
+			if all {
+				pref = append(pref, s)
+			}
+		}
+		if len(pref) == 1 {
+			sols = pref
+		}
+	}
+	if len(sols) != 1 {
+		return nil, first
+	}
+	if c.renames == nil {
+		c.renames = map[string]string{}
+	} else {
+		cp := map[string]string{}
+		for k, v := range c.renames {
+			cp[k] = v
+		}
+		c.renames = cp
+	}
+	for k, v := range sols[0].assign {
+		c.renames[k] = v
+		fmt.Fprintf(os.Stderr, "jvc: note: contract of %s names %q, which the code no longer declares; resolved to %q\n", c.Key, k, v)
+	}
+	return sols[0].t, nil
+}
+
+func (env *Env) eval0(x *Expr) (t *Term, err error) {
 	defer func() {
 		if r := recover(); r != nil {
 			switch v := r.(type) {
@@ -386,6 +524,13 @@ func (env *Env) ev(x *Expr) *Term {
 		if t, ok := env.vars[x.Name]; ok {
 			return t
 		}
+		if env.contract != nil {
+			if nw, ok := env.contract.renames[x.Name]; ok {
+				if t, ok := env.vars[nw]; ok {
+					return t
+				}
+			}
+		}
 		if c, ok := enc.comps[x.Name]; ok {
 			_ = c
 			return env.comp(x.Name)
@@ -410,7 +555,10 @@ func (env *Env) ev(x *Expr) *Term {
 			if env.loopEntry == nil {
 				efail("atLoopEntry() is only meaningful in loop invariants")
 			}
-			n := &Env{cx: env.cx, st: env.loopEntry, old: env.old, vars: env.vars, epochSt: env.epochSt, loopEntry: env.loopEntry}
+			n := &Env{cx: env.cx, st: env.loopEntry, old: env.old, vars: env.vars, epochSt: env.epochSt, loopEntry: env.loopEntry, epochSplit: env.epochSplit, epochOld: env.epochOld, contract: env.contract, prefer: env.prefer}
+			if env.epochSplit {
+				n.epochSt = env.cx.snapshotIfChanged(env.loopEntry)
+			}
 			return n.ev(x.Args[0])
 		}
 		return env.call(x)
@@ -418,7 +566,10 @@ func (env *Env) ev(x *Expr) *Term {
 		if env.old == nil {
 			efail("old() not allowed here")
 		}
-		n := &Env{cx: env.cx, st: env.old, old: env.old, vars: env.vars, epochSt: env.epochSt}
+		n := &Env{cx: env.cx, st: env.old, old: env.old, vars: env.vars, epochSt: env.epochSt, contract: env.contract, prefer: env.prefer}
+		if env.epochSplit {
+			n.epochSt, n.epochSplit, n.epochOld = env.epochOld, true, env.epochOld
+		}
 		return n.ev(x.X)
 	case "unary":
 		a := env.ev(x.X)
@@ -881,7 +1032,7 @@ func (env *Env) callDef(d *Def, args []*Term) *Term {
 		vars[p.Name] = a
 	}
 	// defs see only their parameters (hygiene), but the caller's state
-	n := &Env{cx: env.cx, st: env.st, old: env.old, vars: vars, epochSt: env.epochSt, loopEntry: env.loopEntry, forceEpoch: env.forceEpoch}
+	n := &Env{cx: env.cx, st: env.st, old: env.old, vars: vars, epochSt: env.epochSt, loopEntry: env.loopEntry, forceEpoch: env.forceEpoch, epochSplit: env.epochSplit, epochOld: env.epochOld, contract: env.contract, prefer: env.prefer}
 	r := n.ev(d.Body)
 	if d.Ret != "" {
 		s, gt := env.cx.ResolveType(d.Ret)
